@@ -18,6 +18,48 @@ var all21 = []string{
 	"rbt", "avl", "btree", "binaryheap",
 }
 
+// OV is an element / value type whose JSON form OMITS zero fields: encoding/json merges a decoded
+// object into whatever the destination already holds, so storage that a decoder reuses (a live
+// backing array, one variable for all entries of an object) shows only with such a type, with
+// null entries, or with pointers.
+type OV struct {
+	P int `json:"p,omitempty"`
+	Q int `json:"q,omitempty"`
+}
+
+func ovU(u int) []OV { return []OV{{1, 0}, {0, 2}, {0, 0}, {1, 2}}[:u] }
+func ovCmp(a, b OV) int {
+	if a.P != b.P {
+		return a.P - b.P
+	}
+	return a.Q - b.Q
+}
+
+func ovSys(c string, j Job) Sys {
+	n, u := j.p("n", 4), j.p("u", 3)
+	if u > 4 {
+		u = 4
+	}
+	rev := func(a, b OV) int { return ovCmp(b, a) }
+	switch c {
+	case "arraylist", "singlylinkedlist", "doublylinkedlist":
+		return &ListSys[OV]{Kind: c, U: ovU(u), Absent: OV{9, 9}, Poison: OV{-99, -99}, N: n,
+			Cmps: map[string]func(a, b OV) int{"nat": ovCmp, "rev": rev, "coarse": func(a, b OV) int { return a.P - b.P }}}
+	case "hashset", "linkedhashset", "treeset":
+		return &SetSys[OV]{Kind: c, CmpN: "nat", U: ovU(u), Absent: OV{9, 9}, Poison: OV{-99, -99}, Cmp: ovCmp, Tuples: defaultSetTuples(u)}
+	case "arraystack", "linkedliststack", "arrayqueue", "linkedlistqueue", "circularbuffer":
+		return &SeqSys[OV]{Kind: c, Cap: j.p("cap", 3), N: n, Poison: OV{-99, -99}, U: ovU(u)}
+	case "binaryheap", "priorityqueue":
+		return scalarHeapSys[OV](c, "min", n, ovU(u), OV{-99, -99}, j.p("jsonlen", 2))
+	}
+	vu := j.p("vu", 3)
+	if vu > 4 {
+		vu = 4
+	}
+	return &KVSys[int, OV]{Kind: c, Order: j.p("m", 3), CmpN: "nat", VCmpN: "nat", N: j.p("n", u), KU: intU(u), VU: ovU(vu),
+		KCmp: intCmp("nat"), VCmp: ovCmp, PropsL: kvProps, Probes: func(live []int) []int { return []int{-2, u + 2} }}
+}
+
 // makeSys builds the system of container kind c.
 //
 //	n    live bound          u    universe size     cmp/vcmp comparator names
@@ -34,6 +76,9 @@ func makeSys(c string, j Job) Sys {
 	hc := "min"
 	if cmpN == "rev" {
 		hc = "max"
+	}
+	if j.s("elem", "") == "ov" {
+		return ovSys(c, j)
 	}
 	deep := j.p("deep", 0) == 1
 	valCmps := map[string]func(a, b Val) int{"nat": func(a, b Val) int { return int(a - b) }, "rev": func(a, b Val) int { return int(b - a) }, "coarse": func(a, b Val) int { return int(a/2 - b/2) }}
@@ -63,6 +108,9 @@ func makeSys(c string, j Job) Sys {
 			fc := func(a, b float64) int { return anyCmp(a, b) }
 			return &SetSys[float64]{Kind: c, CmpN: "nat", U: []float64{0, 1.5, nan}, Absent: 7.25, Poison: -99, Cmp: fc,
 				Tuples: [][]int{{}, {0}, {1}, {2}, {0, 2}, {2, 2}, {1, 2, 0}}, MaxSize: 4}
+		}
+		if c == "treeset" && j.s("elem", "") == "float" && j.s("ctor", "") == "default" {
+			return kvSysFromJob(j)
 		}
 		if c == "treeset" && j.p("rank", 0) == 1 {
 			jj := j
@@ -109,7 +157,7 @@ func makeSys(c string, j Job) Sys {
 				Probes: func(live []string) []string { return []string{"", "zz"} }}
 		}
 		jj := j
-		jj.S = map[string]string{"c": c, "cmp": cmpN, "vcmp": j.s("vcmp", "nat")}
+		jj.S = map[string]string{"c": c, "cmp": cmpN, "vcmp": j.s("vcmp", "nat"), "ctor": j.s("ctor", ""), "elem": j.s("elem", "")}
 		return kvSysFromJob(jj)
 	}
 	panic("makeSys: unknown container " + c)
